@@ -165,6 +165,48 @@ example :
     accOf exS1 .none .killWord = .no := by
   decide
 
+/-- **kill-line spans.**  With a non-negative argument kill-line removes the rest of the current
+    line, or — at the end of a line — exactly the newline; with a negative argument, and
+    unix-line-discard away from column 0, the removed text is the part of the line before the
+    cursor. -/
+theorem kill_line_spans (b : Buf) (h : WF b) (n : Int) :
+    (0 ≤ n → (killLineK b n).removed = (if b.text[b.cur]? = some '\n' then ['\n'] else lineAfter b)) ∧
+    (n < 0 → (killLineK b n).removed = lineBefore b) ∧
+    (¬ (col b = 0 ∧ 0 < b.cur) → (lineDiscardK b).removed = lineBefore b) := by
+  have hlen := before_length b h
+  have hback : (deleteBefore b (lineBefore b).length).2 = lineBefore b := by
+    have hle := lineBefore_le b
+    rw [(deleteBefore_le b h _ (by omega)).1]
+    conv => rhs; rw [lineBefore_eq_drop, hlen]
+  refine ⟨?_, ?_, ?_⟩
+  · intro hn
+    unfold killLineK
+    rw [if_neg (by omega)]
+    split
+    · rename_i hc
+      simp only [Kill.ofDel]
+      rw [show (1 : Int) = ((1 : Nat) : Int) from rfl, (delete_nat b h 1).1]
+      rw [List.getElem?_eq_some_iff] at hc
+      obtain ⟨hlt, he⟩ := hc
+      simp only [Buf.after, List.drop_eq_getElem_cons hlt, he]
+      simp
+    · simp only [Kill.ofDel]
+      rw [(delete_nat b h _).1]
+      unfold lineAfter
+      exact (takeWhile_eq_take_length _ _).symm
+  · intro hn
+    unfold killLineK
+    rw [if_pos hn]
+    exact hback
+  · intro hc
+    unfold lineDiscardK
+    rw [if_neg hc]
+    exact hback
+
+example : (killLineK { text := "ab\ncd".toList, cur := 1 } 1).removed = "b".toList ∧
+    (killLineK { text := "ab\ncd".toList, cur := 2 } 1).removed = "\n".toList ∧
+    (killLineK { text := "ab\ncd".toList, cur := 4 } (-1)).removed = "c".toList := by decide
+
 /-! ### the column-0 exception -/
 
 /-- **discard_col0_joins.**  unix-line-discard at column 0 of a line that is not the first one
